@@ -22,7 +22,9 @@ import (
 	"github.com/furiko-io/furiko/pkg/zzverif/fakes"
 )
 
-var verifJCNames = []string{"a", "a.b", "a-1", "a.1"}
+// (the last name is 60 characters long: with the 11-character "-<unix seconds>" suffix the
+// Job name exceeds the 63-character label limit, the region where a scheme might shorten names)
+var verifJCNames = []string{"a", "a.b", "a-1", "a.1", "a123456789b123456789c123456789d123456789e123456789f123456789"}
 
 func verifJobConfig(name string) *execution.JobConfig {
 	jc := &execution.JobConfig{}
